@@ -44,6 +44,32 @@ def point_only_function():
     return RadialPoint
 
 
+def mixed_reduction_function():
+    """user-defined functions of a POINT that combine one coordinate with a reduction over all coordinates written without an axis
+    (direction cosine t[i] / |t|, centred coordinate t[i] - mean(t)): handed a whole d x m data matrix they return m numbers - with the
+    reduction taken over all snapshots.  The documented constructions evaluate snapshot by snapshot."""
+    class MixedReduction(tr.Function):
+        def __init__(self, index, kind, dimension=None):
+            super(MixedReduction, self).__init__(dimension)
+            self.index, self.kind = index, kind
+
+        def __call__(self, t):
+            return t[self.index] / (1.0 + np.linalg.norm(t)) if self.kind == 0 else t[self.index] - np.mean(t)
+
+        def partial(self, t, direction):
+            raise NotImplementedError
+
+        def partial2(self, t, direction1, direction2):
+            raise NotImplementedError
+
+        def gradient(self, t):
+            raise NotImplementedError
+
+        def hessian(self, t):
+            raise NotImplementedError
+    return MixedReduction
+
+
 def linear_functional():
     """a user-defined basis function f(t) = <t, c> written with np.dot(t, c) / t @ c (vector on the right): for a single point it is the inner
     product; handed a whole d x m data matrix with m == d it would silently return data @ c - a vector of the expected length m with
@@ -95,6 +121,8 @@ def rand_function(rng, d):
         a = float(rng.uniform(-1.5, 0.5))
         return tr.IndicatorFunction(i, a, a + float(rng.uniform(0.5, 2.5)))
     if k == 9:
+        if rng.random() < 0.4:
+            return mixed_reduction_function()(i, int(rng.integers(0, 2)))
         return point_only_function()(float(rng.uniform(0.2, 1.5)))
     if k == 0:
         return tr.ConstantFunction(i)
@@ -119,7 +147,7 @@ def array_capable(rng, bl, d):
     repl = {}
     for fl in bl:
         for k, f in enumerate(fl):
-            if type(f).__name__ in ('RadialPoint', 'LinearFunctional'):
+            if type(f).__name__ in ('RadialPoint', 'LinearFunctional', 'MixedReduction'):
                 if id(f) not in repl:
                     repl[id(f)] = tr.GaussFunction(int(rng.integers(0, d)), float(rng.uniform(-1, 1)), float(rng.uniform(0.3, 2))) if type(f).__name__ == 'RadialPoint' else \
                         tr.Identity(int(rng.integers(0, d)))
